@@ -314,6 +314,12 @@ def compare(ctx, target_q, spec_node, rule, what):
     if a_params != tf.params:
         ctx.violation(rule, construct, f"signature of {tf.name} changed: {tf.params} (reference: {a_params})", tf.where())
         return False
+    d_got, d_want = _defaults(tf.node), _defaults(spec_node)
+    if d_got != d_want:
+        diff = sorted(k for k in set(d_got) | set(d_want) if d_got.get(k) != d_want.get(k))
+        ctx.violation(rule, construct, f"default value of parameter(s) {diff} of {tf.name} changed: "
+                      + ", ".join(f"{k}={d_got.get(k, '<required>')} (reference: {d_want.get(k, '<required>')})" for k in diff), tf.where())
+        return False
     got, want = Summary(ctx.prog, ctx.eff, tf), Summary(ctx.prog, ctx.eff, sf)
     if got.keys() == want.keys() or got.keys(arith=True) == want.keys(arith=True):
         ctx.ok(rule, construct, what)
@@ -334,6 +340,14 @@ def compare(ctx, target_q, spec_node, rule, what):
         where = f"{tf.module.relpath}:{extra[0][3]}"
     ctx.violation(rule, construct, f"{tf.name} no longer agrees with its reference ({what}):\n" + "\n".join(lines), where)
     return False
+
+
+def _defaults(fn):
+    a = fn.args
+    pos = a.posonlyargs + a.args
+    d = {x.arg: ast.unparse(v) for x, v in zip(pos[len(pos) - len(a.defaults):], a.defaults)}
+    d.update({x.arg: ast.unparse(v) for x, v in zip(a.kwonlyargs, a.kw_defaults) if v is not None})
+    return d
 
 
 def _show_conds(ck):
